@@ -128,14 +128,18 @@ Section Wf.
 
   Theorem W_range s e i start stop incr :
     atoi (eval s c) = Some start -> atoi (eval e c) = Some stop -> atoi (eval i c) = Some incr ->
-    in_range start stop incr = true ->
+    range_no_wrap start stop incr = true -> in_range start stop incr = true ->
+    (range_countZ start stop incr <= MaxRangeElements)%Z ->
     split0 (eval (ARange s e i) c) = map itoa (progression (range_count start stop incr) start incr).
   Proof.
-    intros H1 H2 H3 R. rewrite (T_range c s e i start stop incr H1 H2 H3).
+    intros H1 H2 H3 G R Hc. rewrite (T_range c s e i start stop incr H1 H2 H3 G).
     unfold in_range in R.
     replace ((incr =? 0) || (incr >? 0) && (start >? stop) || (incr <? 0) && (start <? stop))%Z with false by lia.
+    replace (range_countZ start stop incr >? MaxRangeElements)%Z with false by lia.
     apply split0_join0.
-    - rewrite (range_count_step _ _ _ R). discriminate.
+    - unfold range_count. destruct (range_countZ_step _ _ _ R) as [Hs Hp]. rewrite Hs.
+      replace (Z.to_nat (range_countZ (start + incr) stop incr + 1)) with (S (Z.to_nat (range_countZ (start + incr) stop incr))) by lia.
+      discriminate.
     - apply Forall_forall. intros x Hx. apply in_map_iff in Hx as (z & <- & _). apply itoa_nul_free.
   Qed.
 
@@ -172,16 +176,18 @@ Qed.
 Theorem W_for c s x i n : 1 <= n <= iter_cap ->
   let cond := fun v k => eval x (subctx c v k) in
   let incr := fun v k => eval i (subctx c v k) in
+  let vals := map (for_val incr (eval s c) dec_zero) (seq 0 n) in
   (forall k, k < n -> for_cond cond incr (eval s c) dec_zero k = true) ->
   for_cond cond incr (eval s c) dec_zero n = false ->
+  (Z.of_nat (length (join0 vals)) <= ForMaxOutputBytes)%Z ->
   nul_free (eval s c) -> nul_safe i = true -> keys_nf c ->
-  split0 (eval (AFor s x i) c) = map (for_val incr (eval s c) dec_zero) (seq 0 n).
+  split0 (eval (AFor s x i) c) = vals.
 Proof.
-  intros Hn cond incr Ht Hs Hv Si K.
-  rewrite (T_for c s x i n); [|lia|exact Ht|exact Hs]. fold incr.
+  intros Hn cond incr vals Ht Hs Hb Hv Si K.
+  rewrite (T_for c s x i n); [|lia|exact Ht|exact Hs|exact Hb]. fold incr. fold vals.
   apply split0_join0.
-  - destruct n; [lia|]. discriminate.
+  - unfold vals. destruct n; [lia|]. discriminate.
   - apply Forall_forall. intros y Hy. apply in_map_iff in Hy as (k & <- & _). unfold for_val.
     apply for_state_nf; [|exact Hv|repeat constructor; discriminate].
-    intros a b Ha Hb. unfold incr. apply nul_safe_free; [exact Si|now apply subctx_nf].
+    intros a b Ha Hb'. unfold incr. apply nul_safe_free; [exact Si|now apply subctx_nf].
 Qed.
